@@ -231,6 +231,8 @@ def call_numpy(it, tail, args, kwargs, env, node, chain):
         if isinstance(v, (list, tuple)):
             return op("array", *[to_term(x) for x in v]) if tail in ("array", "asarray") else to_term(v)
         return v
+    if tail == "arctan2" and len(t) >= 2 and isinstance(t[0], sp.im) and isinstance(t[1], sp.re) and t[0].args[0] == t[1].args[0]:
+        return op("angle", t[0].args[0])        # arctan2(z.imag, z.real) is np.angle(z)
     if tail == "arctan2":
         return sp.atan2(t[0], t[1])
     if tail == "hypot":
@@ -258,6 +260,12 @@ def call_numpy(it, tail, args, kwargs, env, node, chain):
     if tail == "maximum":
         return op("maximum", *sorted(t[:2], key=sp.default_sort_key))
     if tail == "minimum":
+        # np.minimum(np.maximum(x, lo), hi) with scalar bounds is np.clip(x, lo, hi)
+        for inner, hi in ((t[0], t[1]), (t[1], t[0])):
+            if fname(inner) == "maximum" and len(inner.args) == 2 and (hi.is_number or is_scalar_term(hi)):
+                for lo, x_ in ((inner.args[0], inner.args[1]), (inner.args[1], inner.args[0])):
+                    if (lo.is_number or is_scalar_term(lo)) and not (x_.is_number or is_scalar_term(x_)):
+                        return op("clip", x_, lo, hi)
         return op("minimum", *sorted(t[:2], key=sp.default_sort_key))
     if tail == "where":
         if len(t) == 3:
@@ -555,6 +563,8 @@ def subst_index(val, pattern, actual):
 
 def term_getitem(it, base, idx, env, node):
     f = fname(base)
+    if is_term(idx) if False else isinstance(idx, sp.Basic):
+        idx = canon_index(idx)
     # X.sizes["dim"]: the length of the coordinate that names the dimension (the one coordinate of that name X is built from)
     if f == "item" and base.args[1] == Str("sizes") and T.is_str_symbol(to_term(idx)):
         coords = {n for n in sp.preorder_traversal(base.args[0]) if fname(n) == "item" and n.args[1] == to_term(idx)}
@@ -791,8 +801,19 @@ def index_slab(it, val, rest):
     return op("item", val, sp.Tuple(*rest) if len(rest) > 1 else rest[0])
 
 
+def canon_index(ti):
+    """x[np.nonzero(m)], x[np.nonzero(m)[0]], x[np.where(m)[0]], x[np.flatnonzero(m)] select what the boolean mask x[m] selects
+    (in the same order): positions and mask are one index."""
+    f = fname(ti)
+    if f in ("nonzero", "flatnonzero", "ext_numpy_flatnonzero") and len(ti.args) == 1:
+        return ti.args[0]
+    if f == "item" and fname(ti.args[0]) == "nonzero" and len(ti.args[0].args) == 1 and ti.args[1] == 0:
+        return ti.args[0].args[0]
+    return ti
+
+
 def term_setitem(it, base, idx, value, env, node):
-    ti = to_term(idx)
+    ti = canon_index(to_term(idx))
     if fname(base) == "store" and base.args[1] == ti:
         base = base.args[0]  # overwriting the element just written
     return op("store", base, ti, to_term(value))
